@@ -22,9 +22,21 @@
 (*  Unpack out | outs outi         inner packs / records the decoded       *)
 (*        container returned: tuple of [type, r] (long lists: the distinct *)
 (*        [type, r] and the index of the one at each position)             *)
+(*  Enc  ... again=true wdel       the SAME object written again: w is what *)
+(*        it holds at this moment (projected just before the write),       *)
+(*        carried is derived for this state of the object (the probes      *)
+(*        replay the object's history); wd / wdel = leaves the write       *)
+(*        changed or added / removed                                       *)
+(*  Mut  op set del                the object in focus was changed through  *)
+(*        its public surface (op names the call): leaves that hold another  *)
+(*        value or are new afterwards / leaves that are gone                *)
+(*  Use  obj                       the focus moves to live object obj       *)
+(*  Peek what [bytes] [r] [d] [status gz same]   what earlier calls on the  *)
+(*        object in focus handed out, looked at again now                   *)
 (*  Top  type top                  union over the run of the top-level     *)
 (*        fields carried by the real writer of `type`                      *)
-(*  End  n                         n = number of Create+Dec+Unpack events  *)
+(*  End  n                         n = number of Create+Dec+Unpack+Mut+Use  *)
+(*        +Peek events                                                      *)
 (*                                                                         *)
 (* Strict = FALSE: the verdict (laws of the property only).                *)
 (* Strict = TRUE : additionally the TRANSCRIBED tables of the spec must    *)
@@ -45,6 +57,7 @@ Step(e) == IsEv(l, e) /\ l' = l + 1
 TraceReset == /\ Step("Reset")
               /\ msg' = None /\ dec' = None /\ ren' = None
               /\ store' = <<>> /\ box' = None /\ out' = None /\ cnt' = 0
+              /\ cur' = 0 /\ shelf' = NoObjects /\ held' = None
 
 TraceCreate ==
   /\ Step("Create")
@@ -55,7 +68,8 @@ TraceCreate ==
   /\ cnt' = cnt + 1
   /\ UNCHANGED vars
 
-MsgOf(e) == [type |-> e.type, code |-> e.code, mode |-> e.mode, w |-> e.w, wd |-> e.wd, sib |-> e.sib,
+MsgOf(e) == [type |-> e.type, code |-> e.code, mode |-> e.mode, w |-> e.w, wd |-> e.wd,
+             wdel |-> IF Has(e, "wdel") THEN Range(e.wdel) ELSE {}, sib |-> e.sib,
              carried |-> Range(e.carried), bytes |-> e.bytes, perm |-> e.perm]
 
 HeaderOf(w) == [f \in HeaderFields |-> w[f].v]
@@ -66,7 +80,7 @@ TraceEnc ==
   /\ Step("Enc")
   /\ LET e == Trace[l] IN
        /\ e.mode \in {"reg", "direct"}
-       /\ Encode(MsgOf(e))
+       /\ IF Has(e, "again") THEN e.again = TRUE /\ Rewrite(MsgOf(e)) ELSE Encode(MsgOf(e))
        /\ Strict => /\ e.type \in KnownTypes
                     /\ e.mode = "reg" => /\ Len(e.bytes) >= 2
                                          /\ BytesToNat(SubSeq(e.bytes, 1, 2)) = TagOf(e.code)
@@ -107,6 +121,30 @@ TraceUnpack ==
        ELSE Unpack(e.out)
   /\ cnt' = cnt + 1
 
+TraceMut ==
+  /\ Step("Mut")
+  /\ LET e == Trace[l] IN Mutate(e.set, Range(e.del))
+  /\ cnt' = cnt + 1
+
+TraceUse ==
+  /\ Step("Use")
+  /\ Use(Trace[l].obj)
+  /\ cnt' = cnt + 1
+
+TracePeek ==
+  /\ Step("Peek")
+  /\ LET e == Trace[l]
+         w == Range(e.what) IN
+       /\ w \subseteq {"bytes", "r", "d", "box"} /\ w # {}
+       /\ Peek([what |-> w,
+                bytes |-> IF "bytes" \in w THEN e.bytes ELSE <<>>,
+                r |-> IF "r" \in w THEN e.r ELSE <<>>,
+                d |-> IF "d" \in w THEN e.d ELSE <<>>,
+                status |-> IF "box" \in w THEN e.status ELSE 0,
+                gz |-> IF "box" \in w THEN e.gz ELSE FALSE,
+                same |-> IF "box" \in w THEN e.same ELSE FALSE])
+  /\ cnt' = cnt + 1
+
 TraceTop ==
   /\ Step("Top")
   /\ LET e == Trace[l] IN Strict => Range(e.top) = CarriedTop(e.type)
@@ -118,7 +156,7 @@ TraceEnd == /\ Step("End")
             /\ UNCHANGED <<vars, cnt>>
 
 TraceNext == (TraceReset \/ TraceCreate \/ TraceEnc \/ TraceDec \/ TraceReEnc \/ TraceItem \/ TraceBuild
-              \/ TraceUnpack \/ TraceTop \/ TraceEnd) /\ InvAll'
+              \/ TraceUnpack \/ TraceMut \/ TraceUse \/ TracePeek \/ TraceTop \/ TraceEnd) /\ InvAll'
 
 TraceSpec == TraceInit /\ [][TraceNext]_tvars
 
